@@ -176,6 +176,12 @@ impl Monitor for C09 {
                 }
             }
         }
+        let on_lp = pre.farms.iter().filter(|f| f.lp_denom == denom).count();
+        if on_lp > 10 {
+            c.stats.bump("probe.c09.emergency_with_more_than_10_farms_on_lp");
+        } else if on_lp > 4 {
+            c.stats.bump("probe.c09.emergency_with_5_to_10_farms_on_lp");
+        }
         let mut to_owners: BTreeMap<String, u128> = BTreeMap::new();
         let mut to_fc: u128 = 0;
         // a send to an address that is both fee collector and farm owner: attribute by amount later
